@@ -1,5 +1,6 @@
 """Seeded random generators of operation records (PART 4 of spec/TinyFlux.tla)
 over a vocabulary larger than the one TLC enumerates."""
+import json
 import random
 
 from concretise import NONE, MISSING
@@ -330,6 +331,36 @@ class Gen:
             ops.append({"op": "insert", "p": self.point(t), "m": NONE, "compact": 0})
             t += 1
         ops.append({"op": "all", "m": NONE, "sorted": 0})
+        return ops
+
+    def alias_scenario(self):
+        """the SAME Point object inserted more than once (memory storage keeps the object itself, so one object is then
+        visited several times by one update), other points around it, then updates whose callable raises on the LAST
+        selected point, and reads: a failed call must leave every stored point as it was"""
+        r = self.r
+        ops, t = [], r.randrange(0, 3)
+        total = 0
+        for _ in range(r.choice([0, 1])):
+            ops.append({"op": "insert", "p": self.point(t), "m": NONE, "compact": 0})
+            total += 1
+        p = self.point(t)
+        if p["fd"][0] == MISSING:
+            p["fd"][0] = r.randrange(NN)
+        for i in range(r.choice([2, 2, 3])):
+            ops.append({"op": "insert", "p": json.loads(json.dumps(p)), "m": NONE, "compact": 0, "alias": 1 if i else 0})
+            total += 1
+        for _ in range(r.choice([1, 2])):
+            t += r.choice([0, 1])
+            ops.append({"op": "insert", "p": self.point(t), "m": NONE, "compact": 0})
+            total += 1
+        for _ in range(r.choice([1, 2, 3])):
+            u = self.update()
+            if u["fdk"] == 0:                      # make sure the aliased point is really changed before the failure
+                u["fdk"], u["fdv"] = 1, [MISSING] * self.nfk
+                u["fdv"][0] = (p["fd"][0] + 1) % NN
+            ops.append({"op": "update_all", "u": u, "fail": total})
+            ops.append({"op": "all", "m": NONE, "sorted": 0})
+            ops.append(self.read())
         return ops
 
     def battery(self, k=5):
